@@ -13,7 +13,8 @@ import DarsiaProofs.Integrate
 namespace Darsia.C03
 open Darsia
 
-/-- Integrating on a fresh object returns the sum of data × effective voxel volume, separately for every
+/-- (For scalar volumes this is a definitional unfolding of the model; the content is the array-volume case and the cache
+invariant behind it.)  Integrating on a fresh object returns the sum of data × effective voxel volume, separately for every
 trailing index.  Guards (`Geo.wf`, `Data.okFor`): positive extents, matching number of axes, array volumes
 of the native shape, array volumes at a foreign resolution only in 2-D (elsewhere the code raises). -/
 theorem integrate_fresh_eq_spec (g : Geo) (d : Data) (hg : g.wf) (hf : g.fresh) (hd : d.okFor g) :
@@ -290,9 +291,24 @@ theorem integrate_reachable_eq_spec (g0 : Geo) (hwf : g0.wf) (hf : g0.fresh) (op
   rw [integrate_history_indep g0 hwf hf ops d]
   exact integrate_fresh_eq_spec g0 d hwf hf hd
 
+/-- composition with the model of the code: what `integrate` RETURNS is resolution independent wherever the code does not
+raise — for every reachable state, data `d` on a grid and the same field replicated by integer factors `ks`, provided both
+satisfy the guard `okFor` (array volumes: 2-D only — in 1-D / 3-D the code raises, a known finding) and the specification
+values agree (`spec_scalar_resolution`, `spec_array_*_nd`) -/
+theorem integrate_resolution_indep (g0 : Geo) (hwf : g0.wf) (hf : g0.fresh) (ops ops' : List Data) (d : Data) (ks : List Nat)
+    (h1 : d.okFor g0) (h2 : (d.replicate ks).okFor g0) (hspec : ∀ c, specAt g0 (d.replicate ks) c = specAt g0 d c) :
+    (step true (after true g0 ops) (d.replicate ks)).2 = (step true (after true g0 ops') d).2 := by
+  rw [integrate_reachable_eq_spec g0 hwf hf ops _ h2, integrate_reachable_eq_spec g0 hwf hf ops' _ h1]
+  congr 1
+  simp only [spec, Data.replicate]
+  apply List.map_congr_left
+  intro c _
+  exact hspec c
+
 def ones (shape : List Nat) : Data := { shape := shape, ncomp := 1, val := fun _ _ => 1 }
 
-/-- The scalar branch as it was before the fix (cache assigned only when the fetched shape differs from
+/-- HISTORICAL (code before the first `fix:` commit; `refresh = false` is not tied to the current tree).
+The scalar branch as it was before the fix (cache assigned only when the fetched shape differs from
 the native one) is NOT history independent: on `Geometry(2, (4,4), [1,1])` the history
 [native, coarse, native] of all-ones data returns 4 for the last call, a fresh object returns 1. -/
 theorem stale_cache_history_dependent :
